@@ -97,6 +97,18 @@ def main():
                         if got != want:
                             note(None, "[%s] two writers, %s: after the last sync_paths(%s -> %s) %s resolves the path to %r" % (kind, variant, p_, want, who, got))
                     shutil.rmtree(d, ignore_errors=True)
+        # directed: the listed open findings are exercised on every run, whatever the random sequences visit
+        evals += 1
+        d = os.path.join(tmp, "directed_alias")
+        st_ = LocalFileStore(os.path.join(d, "int"), os.path.join(d, "data"))
+        st_.store_blob("k1", "value-of-k1", None)
+        st_.store_blob("k2", "value-of-k2", None)
+        st_.sync_paths(OrderedDict([("/a/b/c", "k1")]))
+        st_.sync_paths(OrderedDict([("/ab/c", "k2")]))
+        got_ = st_.fetch_paths(["/a/b/c"]).get("/a/b/c")
+        if got_ != "k1":
+            note(classify_alias("/a/b/c", "/ab/c"), "[local] directed: /a/b/c committed with k1, then /ab/c with k2: /a/b/c resolves to %r" % got_)
+        shutil.rmtree(d, ignore_errors=True)
         sys.path.insert(0, "/verif")
         from replay.h_dbfs import FakeDbutils
         from dds.codecs.databricks import DBFSStore, DBFSURI, CommitType
